@@ -149,8 +149,8 @@ def semSqRow (cb : Bool) (data : Nat → Rat) (idx : List Nat) (off j : Nat) : R
 def dataZ (N : Nat) (data : Nat → Rat) (i : Int) : Rat :=
   if 0 ≤ i then data i.toNat else data (i + (N : Int)).toNat
 
-/-- Events branch, one sample of one window.  `cb = true` is the INTENDED baseline correction (today's
-    Events branch ignores `correct_baseline`; see finding `eta/events-input/correct-baseline-ignored`) -/
+/-- Events branch, one sample of one window, with the baseline correction `event_trig - event_trig[0]`
+    (repaired in /repo 7b5e6e4; before that the Events branch ignored `correct_baseline`) -/
 def trigZ (cb : Bool) (N : Nat) (data : Nat → Rat) (off : Int) (j : Nat) (k : Int) : Rat :=
   if cb then dataZ N data (k + off + (j : Int)) - dataZ N data (k + off) else dataZ N data (k + off + (j : Int))
 
@@ -336,7 +336,7 @@ def handle (args : List String) : String :=
     | none => "bad-args"
   | "events" :: rest =>
     match parseJob? rest with
-    | some j => both j.cb (fun cur => runEvents (j.cb && !cur) j)
+    | some j => runEvents j.cb j
     | none => "bad-args"
   | ["design", L, ev] =>
     match L.toNat?, parseIntList? ev with
